@@ -416,3 +416,226 @@ func (g *Gen) genGob(p *Prog) {
 		p.Exec(fmt.Sprintf("gobdec %d %x", z, b))
 	}
 }
+
+var textFormats = []byte("eEfgGpb")
+
+// valForText: values whose printing is interesting: dyadic (strconv oracle), low zero words,
+// rounding at word boundaries, tiny/huge exponents for exponent formats.
+func (g *Gen) valForText(forF bool) Val {
+	x := g.any()
+	switch g.intn(8) {
+	case 0, 1, 2: // dyadic: k / 2^j
+		k := int64(g.r.Uint64() >> uint(11+g.intn(53)))
+		if k == 0 {
+			k = 1
+		}
+		j := g.intn(60)
+		v := new(big.Int).Mul(big.NewInt(k), new(big.Int).Exp(big.NewInt(5), big.NewInt(int64(j)), nil))
+		x = intToVal(v, -int64(j), g.intn(2) == 0, uint(g.intn(4)), decimal.ToNearestEven)
+		if g.chance(0.3) {
+			x.Mode = g.mode()
+		}
+	case 3: // small integers and halves
+		x = intToVal(big.NewInt(int64(1+g.intn(2000))), -int64(g.intn(4)), g.intn(2) == 0, uint(g.intn(3)), g.mode())
+	case 4: // mantissa with low zero words
+		d := g.digitsPattern(1+g.intn(20)) + strings.Repeat("0", 19+g.intn(30))
+		x = Val{Form: 1, Neg: g.intn(2) == 0, Digits: trimZeros(d), Exp: int64(g.intn(81) - 40), Mode: g.mode()}
+		x.Prec = uint(len(d)) + uint(g.intn(3))
+	}
+	if x.Form == 1 && forF && (x.Exp > 400 || x.Exp < -400) {
+		x.Exp = int64(g.intn(61) - 30)
+	}
+	return x
+}
+
+// genText: explicit-precision formatting and fmt verbs (C13).
+func (g *Gen) genText(p *Prog) {
+	f := textFormats[g.intn(5)] // e E f g G
+	x := g.valForText(f == 'f')
+	xi := p.Load(x)
+	prec := g.intn(25)
+	if g.chance(0.2) {
+		prec = g.intn(3)
+	}
+	if x.Form == 1 && f == 'f' && g.chance(0.3) {
+		// rounding position at / above the leading digit
+		prec = int(-x.Exp) - g.intn(3)
+		if prec < 0 {
+			prec = 0
+		}
+		if prec > 400 {
+			prec = 0
+		}
+	}
+	p.Exec(fmt.Sprintf("text %d %c %d", xi, f, prec))
+	if g.chance(0.5) {
+		// the same through fmt with flags and width
+		verbs := []byte("eEfFgGv")
+		verb := verbs[g.intn(len(verbs))]
+		if (x.Exp > 400 || x.Exp < -400) && (verb == 'f' || verb == 'F') {
+			verb = 'e'
+		}
+		format := "%"
+		for _, fl := range []byte("+ 0-") {
+			if g.chance(0.25) {
+				format += string(fl)
+			}
+		}
+		if g.chance(0.6) {
+			format += fmt.Sprint(g.intn(30))
+		}
+		if g.chance(0.8) {
+			format += "." + fmt.Sprint(g.intn(20))
+		}
+		format += string(verb)
+		p.Exec(fmt.Sprintf("sprintf %d %x", xi, format))
+	}
+	if g.chance(0.1) {
+		p.Exec(fmt.Sprintf("text %d %c %d", xi, "pb"[g.intn(2)], 0))
+	}
+}
+
+// genRoundTrip: Text/MarshalText with precision -1, parsed back (C11).
+func (g *Gen) genRoundTrip(p *Prog) {
+	f := textFormats[g.intn(len(textFormats))]
+	x := g.valForText(f == 'f')
+	if g.chance(0.1) && f != 'f' && x.Form == 1 {
+		x.Exp = g.exp()
+	}
+	xi := p.Load(x)
+	p.Exec(fmt.Sprintf("text %d %c -1", xi, f))
+	s := p.vars[xi].Text(f, -1)
+	if g.chance(0.2) {
+		b, _ := p.vars[xi].MarshalText()
+		s = string(b)
+	}
+	// receiver precision at least MinPrec
+	mp := p.vars[xi].MinPrec()
+	zp := mp + uint(g.intn(3))
+	if g.chance(0.3) {
+		zp = mp + uint(g.intn(40))
+	}
+	if zp == 0 {
+		zp = uint(g.intn(5))
+	}
+	z := p.Load(Val{Form: 0, Prec: zp, Mode: g.mode()})
+	base := 10
+	if g.chance(0.3) {
+		base = 0
+	}
+	p.Exec(fmt.Sprintf("parse %d %d %x", z, base, s))
+	p.Exec(fmt.Sprintf("cmp %d %d", z, xi))
+	p.Exec(fmt.Sprintf("sign %d", z))
+}
+
+var litAlphabet = []byte("0123456789abcdefABCDEFxXoOpP_.+-eEinfIN ")
+
+// genParse: structured literals and a malformed stream (C12).
+func (g *Gen) genParse(p *Prog) {
+	prec := g.prec(true)
+	z := p.Load(g.receiver(prec, g.mode()))
+	var s string
+	base := []int{0, 10, 10, 0, 2, 8, 16}[g.intn(7)]
+	digs := func(n int, set string) string {
+		b := make([]byte, n)
+		for i := range b {
+			b[i] = set[g.intn(len(set))]
+		}
+		return string(b)
+	}
+	switch g.intn(10) {
+	case 0, 1, 2, 3: // well-formed base-10 literal
+		if base != 0 {
+			base = 10
+		}
+		n := 1 + g.intn(60)
+		if g.chance(0.1) {
+			n = 1 + g.intn(g.maxDig*3)
+		}
+		m := digs(n, "0123456789")
+		if g.chance(0.5) {
+			k := g.intn(len(m) + 1)
+			m = m[:k] + "." + m[k:]
+		}
+		if g.chance(0.3) {
+			m = g.shaped(int(prec)+1) // rounding-relevant tails
+			if g.chance(0.5) {
+				k := g.intn(len(m) + 1)
+				m = m[:k] + "." + m[k:]
+			}
+		}
+		if base == 0 && g.chance(0.3) && len(m) > 3 {
+			k := 1 + g.intn(len(m)-2)
+			if m[k] != '.' && m[k-1] != '.' {
+				m = m[:k] + "_" + m[k:]
+			}
+		}
+		s = []string{"", "+", "-"}[g.intn(3)] + m
+		if g.chance(0.5) {
+			e := g.intn(81) - 40
+			switch g.intn(12) {
+			case 0:
+				e = int(decimal.MaxExp) - g.intn(70)
+			case 1:
+				e = int(decimal.MinExp) + g.intn(70)
+			case 2:
+				e = int(decimal.MaxExp) + g.intn(70)
+			}
+			s += string("eE"[g.intn(2)]) + fmt.Sprintf("%+d", e)
+			if g.chance(0.05) {
+				s = s[:len(s)-1] + "99999999999999999999"
+			}
+		}
+	case 4: // well-formed non-decimal
+		pre := map[int]string{2: "0b", 8: "0o", 16: "0x"}
+		bb := []int{2, 8, 16}[g.intn(3)]
+		set := map[int]string{2: "01", 8: "01234567", 16: "0123456789abcdefABCDEF"}[bb]
+		m := digs(1+g.intn(30), set)
+		if g.chance(0.4) {
+			k := g.intn(len(m) + 1)
+			m = m[:k] + "." + m[k:]
+		}
+		if g.chance(0.5) {
+			base = 0
+			s = pre[bb] + m
+		} else {
+			base = bb
+			s = m
+		}
+		if g.chance(0.6) {
+			s += "p" + fmt.Sprintf("%+d", g.intn(301)-150)
+		}
+		if g.chance(0.3) {
+			s = "-" + s
+		}
+	case 5: // decimal mantissa with binary exponent
+		s = digs(1+g.intn(20), "0123456789") + "p" + fmt.Sprintf("%+d", g.intn(201)-100)
+		if base != 0 {
+			base = 10
+		}
+	case 6: // infinities and near misses
+		s = []string{"Inf", "inf", "+Inf", "-inf", "-Inf", "INF", "Infinity", "+inf ", "in", "-Inf1"}[g.intn(10)]
+	case 7: // mutate a valid literal
+		s = "-12_3.4_5e+6"
+		b := []byte(s)
+		for k := 1 + g.intn(3); k > 0; k-- {
+			switch g.intn(3) {
+			case 0:
+				b[g.intn(len(b))] = litAlphabet[g.intn(len(litAlphabet))]
+			case 1:
+				i := g.intn(len(b))
+				b = append(b[:i], b[i+1:]...)
+			default:
+				i := g.intn(len(b) + 1)
+				b = append(b[:i], append([]byte{litAlphabet[g.intn(len(litAlphabet))]}, b[i:]...)...)
+			}
+			if len(b) == 0 {
+				b = []byte("_")
+			}
+		}
+		s = string(b)
+	default: // random bytes over the alphabet
+		s = digs(g.intn(10), string(litAlphabet))
+	}
+	p.Exec(fmt.Sprintf("parse %d %d %x", z, base, s))
+}
